@@ -392,6 +392,11 @@ def strip(obs):
     return o
 
 
+# positions before authentication completes: there the property admits authentication messages (a BANNER or a
+# FAILURE nobody asked for changes nothing); EXT_INFO (7) is a transport message
+PRE_AUTH = {(5, 1), (50, 1), 'pending-auth', (61, 1), (6, 1), (51, 1), 'parked', (52, 1)}
+
+
 def judge(role, pos, t, shape, strict, obs, base):
     v = []
     if obs['loop_exc']:
@@ -423,6 +428,12 @@ def judge(role, pos, t, shape, strict, obs, base):
     if not same:
         v.append(('took-effect', 'out-of-phase type %d (%s) at %r: connection stayed up and the '
                   'session differs from the baseline: %s' % (t, shape, pos, _diff(obs, base))))
+    elif obs.get('unimplemented', 0) <= base.get('unimplemented', 0) and t not in (2, 3, 4, 7) and \
+            not (50 <= t <= 79 and pos_t in PRE_AUTH):
+        # neither fatal nor answered as unimplemented: the endpoint silently accepted a key exchange or
+        # connection-protocol message that is not allowed here
+        v.append(('silently-accepted', 'out-of-phase type %d (%s) at %r: the connection stayed up and no '
+                  'UNIMPLEMENTED was sent' % (t, shape, pos)))
     return v
 
 
